@@ -65,6 +65,33 @@ type C20MarshalP struct{ V data.Value }
 
 func (m *C20MarshalP) MarshalValue() data.Value { return m.V }
 
+// Named NON-struct types that implement data.Marshaler with a value receiver: a conversion that dispatches on the kind
+// before it asks for a Marshaler ignores them (seeded change C20b-1: a fast path for slices of scalars).
+type C20Level int
+
+func (l C20Level) MarshalValue() data.Value { return data.String("level-" + strconv.Itoa(int(l))) }
+
+type C20Flag bool
+
+func (f C20Flag) MarshalValue() data.Value {
+	if f {
+		return data.Int(1)
+	}
+	return data.Int(0)
+}
+
+type C20Tag string
+
+func (t C20Tag) MarshalValue() data.Value { return data.String("#" + string(t)) }
+
+type C20Ratio float64
+
+func (r C20Ratio) MarshalValue() data.Value { return data.Float(float64(r) * 100) }
+
+type C20Items []int32
+
+func (l C20Items) MarshalValue() data.Value { return data.Int(len(l)) }
+
 type C20Inner struct {
 	A int8
 	B string
@@ -106,13 +133,14 @@ type c20AllHidden struct {
 }
 
 var (
-	c20EmptyIface   = reflect.TypeOf((*interface{})(nil)).Elem()
-	c20ValueIface   = reflect.TypeOf((*data.Value)(nil)).Elem()
-	c20MarshalIface = reflect.TypeOf((*data.Marshaler)(nil)).Elem()
-	c20TimeType     = reflect.TypeOf(time.Time{})
-	c20MarshalVType = reflect.TypeOf(C20MarshalV{})
-	c20MarshalPType = reflect.TypeOf(&C20MarshalP{})
-	c20ScalarTypes  = []reflect.Type{
+	c20EmptyIface      = reflect.TypeOf((*interface{})(nil)).Elem()
+	c20ValueIface      = reflect.TypeOf((*data.Value)(nil)).Elem()
+	c20MarshalIface    = reflect.TypeOf((*data.Marshaler)(nil)).Elem()
+	c20TimeType        = reflect.TypeOf(time.Time{})
+	c20MarshalVType    = reflect.TypeOf(C20MarshalV{})
+	c20MarshalPType    = reflect.TypeOf(&C20MarshalP{})
+	c20PlainMarshalers = []reflect.Type{reflect.TypeOf(C20Level(0)), reflect.TypeOf(C20Flag(false)), reflect.TypeOf(C20Tag("")), reflect.TypeOf(C20Ratio(0)), reflect.TypeOf(C20Items(nil))}
+	c20ScalarTypes     = []reflect.Type{
 		reflect.TypeOf(false), reflect.TypeOf(int(0)), reflect.TypeOf(int8(0)), reflect.TypeOf(int16(0)), reflect.TypeOf(int32(0)), reflect.TypeOf(int64(0)),
 		reflect.TypeOf(uint(0)), reflect.TypeOf(uint8(0)), reflect.TypeOf(uint16(0)), reflect.TypeOf(uint32(0)), reflect.TypeOf(uint64(0)),
 		reflect.TypeOf(float32(0)), reflect.TypeOf(float64(0)), reflect.TypeOf(""),
@@ -146,6 +174,8 @@ type c20Node struct {
 	n        int        // badmap: number of entries
 	val      data.Value // marshal / value
 	ptrRecv  bool       // marshal: the marshaler is the pointer type itself
+	under    *c20Node   // marshal: the same Go value as reflection sees it when MarshalValue is not consulted (a struct)
+	nilTo    string     // nil ptr: "marshal" = the element type is a value-receiver Marshaler, "value" = one of the data.Value types
 	rv       reflect.Value
 }
 
@@ -207,6 +237,12 @@ func (g *c20Gen) sexp(n *c20Node) string {
 		return "(" + strings.Join(parts, " ") + ")"
 	case "ptr":
 		if n.isNil {
+			switch n.nilTo {
+			case "marshal":
+				return "(gnilptrto 1)"
+			case "value":
+				return "(gnilptrto 0)"
+			}
 			return "gptrnil"
 		}
 		return "(gptr " + g.sexp(n.elems[0]) + ")"
@@ -218,28 +254,30 @@ func (g *c20Gen) sexp(n *c20Node) string {
 	case "marshal":
 		if n.ptrRecv {
 			// the Marshaler is the pointer type *C20MarshalP
-			return "(gptr (gmarshal " + valueSexp(n.val, g.ids) + "))"
+			return "(gptr (gmarshal " + valueSexp(n.val, g.ids) + " " + g.sexp(n.under) + "))"
 		}
-		return "(gmarshal " + valueSexp(n.val, g.ids) + ")"
+		return "(gmarshal " + valueSexp(n.val, g.ids) + " " + g.sexp(n.under) + ")"
 	case "value":
 		return "(gval " + valueSexp(n.val, g.ids) + ")"
 	}
 	return "gunsupported"
 }
 
-// irregular mirrors the model's cctx: a Marshaler or data.Value that NewWith
-// only reaches through its drilling loop (the model answers OutOfModel there).
+// irregular mirrors Spec/ConvertSpec.v ptr_to_value: somewhere NewWith looks at the dynamic type of a POINTER (nil or
+// not) to one of the data.Value types and returns that pointer as a data.Value (the model answers OutOfModel there).
 func c20Irregular(n *c20Node, ctx int) bool { // ctx: 0 slot, 1 one pointer below, 2 deeper
+	down := func(ctx int) int {
+		if ctx == 0 {
+			return 1
+		}
+		return 2
+	}
 	switch n.kind {
 	case "ptr":
 		if n.isNil {
-			return false
+			return n.nilTo == "value" && ctx == 0
 		}
-		nc := 2
-		if ctx == 0 {
-			nc = 1
-		}
-		return c20Irregular(n.elems[0], nc)
+		return c20Irregular(n.elems[0], down(ctx))
 	case "iface":
 		if n.isNil {
 			return false
@@ -251,11 +289,11 @@ func c20Irregular(n *c20Node, ctx int) bool { // ctx: 0 slot, 1 one pointer belo
 		return c20Irregular(n.elems[0], nc)
 	case "marshal":
 		if n.ptrRecv {
-			return ctx != 0
+			ctx = down(ctx)
 		}
-		return ctx == 2
+		return ctx == 2 && c20Irregular(n.under, 2)
 	case "value":
-		return ctx != 0
+		return ctx == 1
 	case "slice", "map":
 		for _, c := range n.elems {
 			if c20Irregular(c, 0) {
@@ -272,28 +310,71 @@ func c20Irregular(n *c20Node, ctx int) bool { // ctx: 0 slot, 1 one pointer belo
 	return false
 }
 
-// expectPanic: does the description contain, in a converted position, a kind
-// the converter rejects?
-func c20ExpectPanic(n *c20Node) bool {
+// expectPanic: does the description contain, in a converted position, a kind the converter rejects?
+func c20ExpectPanic(n *c20Node) bool { return c20ExpectPanicAt(n, 0, false) }
+
+// nilMarshaler: trigger of known finding nil-marshaler-panics -- where NewWith looks at the dynamic type there is a nil
+// pointer to a value-receiver Marshaler (the pinned tree calls MarshalValue through it; notes/pending/C20-nil-marshaler.diff)
+func c20NilMarshaler(n *c20Node) bool { return c20ExpectPanicAt(n, 0, true) }
+
+func c20ExpectPanicAt(n *c20Node, ctx int, nilMar bool) bool {
+	down := func(ctx int) int {
+		if ctx == 0 {
+			return 1
+		}
+		return 2
+	}
 	switch n.kind {
 	case "unsupported":
-		return true
+		return !nilMar
 	case "badmap":
-		return n.n > 0
-	case "slice", "map", "ptr", "iface":
+		return !nilMar && n.n > 0
+	case "ptr":
+		if n.isNil {
+			return nilMar && n.nilTo == "marshal" && ctx == 0
+		}
+		return c20ExpectPanicAt(n.elems[0], down(ctx), nilMar)
+	case "iface":
+		if n.isNil {
+			return false
+		}
+		nc := 2
+		if ctx == 0 {
+			nc = 0
+		}
+		return c20ExpectPanicAt(n.elems[0], nc, nilMar)
+	case "marshal":
+		if n.ptrRecv {
+			ctx = down(ctx)
+		}
+		return ctx == 2 && c20ExpectPanicAt(n.under, 2, nilMar)
+	case "slice", "map":
 		for _, c := range n.elems {
-			if c20ExpectPanic(c) {
+			if c20ExpectPanicAt(c, 0, nilMar) {
 				return true
 			}
 		}
 	case "struct":
 		for i, c := range n.elems {
-			if n.exported[i] && c20ExpectPanic(c) {
+			if n.exported[i] && c20ExpectPanicAt(c, 0, nilMar) {
 				return true
 			}
 		}
 	}
 	return false
+}
+
+// marshalUnder describes C20MarshalV{V: v, Ignore: ig} / C20MarshalP{V: v} as the plain structs they are.
+func marshalUnder(v data.Value, ig int, withIgnore bool) *c20Node {
+	vn := &c20Node{kind: "iface", elems: []*c20Node{{kind: "value", val: v, rv: reflect.ValueOf(v)}}}
+	u := &c20Node{kind: "struct", keys: []string{"V"}, exported: []bool{true}, embedded: []bool{false}, elems: []*c20Node{vn}}
+	if withIgnore {
+		u.keys = append(u.keys, "Ignore")
+		u.exported = append(u.exported, true)
+		u.embedded = append(u.embedded, false)
+		u.elems = append(u.elems, &c20Node{kind: "int", width: 64, i: int64(ig)})
+	}
+	return u
 }
 
 // ---------- generator ----------
@@ -498,6 +579,9 @@ func (g *c20Gen) randType(depth int, bad bool) reflect.Type {
 	case k < 85:
 		return g.randStructType(depth-1, bad)
 	case k < 88:
+		if g.r.Chance(50) {
+			return c20PlainMarshalers[g.r.Intn(len(c20PlainMarshalers))]
+		}
 		return c20MarshalVType
 	case k < 90:
 		return c20MarshalPType
@@ -571,13 +655,51 @@ func (g *c20Gen) gen(t reflect.Type, depth int) *c20Node {
 		return n
 	case t == c20MarshalVType:
 		v := g.randDataValue(depth)
-		rv.Set(reflect.ValueOf(C20MarshalV{V: v, Ignore: g.r.Intn(9)}))
-		n.kind, n.val = "marshal", v
+		ig := g.r.Intn(9)
+		rv.Set(reflect.ValueOf(C20MarshalV{V: v, Ignore: ig}))
+		n.kind, n.val, n.under = "marshal", v, marshalUnder(v, ig, true)
+		return n
+	case t.Kind() != reflect.Struct && t.Kind() != reflect.Ptr && t.Kind() != reflect.Interface && t.PkgPath() != "" && t.Implements(c20MarshalIface):
+		// one of the named scalar / slice Marshalers: generate the plain value, then ask it what it marshals to
+		var u *c20Node
+		switch t.Kind() {
+		case reflect.Int:
+			z := g.randInt(64)
+			rv.SetInt(z)
+			u = &c20Node{kind: "int", width: 64, i: z}
+		case reflect.Bool:
+			x := g.r.Bool()
+			rv.SetBool(x)
+			u = &c20Node{kind: "bool", b: x}
+		case reflect.String:
+			x := g.randString()
+			rv.SetString(x)
+			u = &c20Node{kind: "str", s: x}
+		case reflect.Float64:
+			x := float64(int64(g.r.Intn(4096))-2048) / float64(int64(1)<<uint(g.r.Intn(8)))
+			rv.SetFloat(x)
+			u = &c20Node{kind: "float", width: 64, f: x}
+		default: // C20Items
+			cnt := g.r.Intn(4)
+			sl := reflect.MakeSlice(t, cnt, cnt)
+			u = &c20Node{kind: "slice"}
+			for i := 0; i < cnt; i++ {
+				z := g.randInt(32)
+				sl.Index(i).SetInt(z)
+				u.elems = append(u.elems, &c20Node{kind: "int", width: 32, i: z})
+			}
+			if cnt == 0 && g.r.Bool() {
+				u.isNil = true
+			} else {
+				rv.Set(sl)
+			}
+		}
+		n.kind, n.val, n.under = "marshal", rv.Interface().(data.Marshaler).MarshalValue(), u
 		return n
 	case t == c20MarshalPType:
 		v := g.randDataValue(depth)
 		rv.Set(reflect.ValueOf(&C20MarshalP{V: v}))
-		n.kind, n.val, n.ptrRecv = "marshal", v, true
+		n.kind, n.val, n.ptrRecv, n.under = "marshal", v, true, marshalUnder(v, 0, false)
 		return n
 	case t.Kind() != reflect.Interface && t.Kind() != reflect.Ptr && t.Implements(c20ValueIface):
 		// one of the eight data.Value types as a static type
@@ -700,10 +822,14 @@ func (g *c20Gen) gen(t reflect.Type, depth int) *c20Node {
 		}
 	case reflect.Ptr:
 		n.kind = "ptr"
-		if (g.r.Chance(20) || depth < -3) && t.Elem() != c20MarshalVType && !(t.Elem().Kind() != reflect.Interface && t.Elem().Implements(c20ValueIface)) {
-			// (a nil *C20MarshalV is a Marshaler whose value method cannot be called, a nil *data.Int
-			// is itself a data.Value: see the probes)
+		if g.r.Chance(20) || depth < -3 {
 			n.isNil = true
+			switch {
+			case t.Elem().Kind() != reflect.Interface && t.Elem().Kind() != reflect.Ptr && t.Elem().Implements(c20MarshalIface):
+				n.nilTo = "marshal" // a Marshaler whose value method cannot be called: a panic where NewWith looks at the dynamic type
+			case t.Elem().Kind() != reflect.Interface && t.Elem().Implements(c20ValueIface):
+				n.nilTo = "value" // a nil *data.Int is itself a data.Value
+			}
 			return n
 		}
 		c := g.gen(t.Elem(), depth-1)
@@ -842,7 +968,10 @@ type c20Walk struct {
 
 // walk checks that v has the structure and the scalar values of n; it returns
 // a description of the first difference, or "".
-func (w *c20Walk) walk(n *c20Node, v data.Value, path string) string {
+func (w *c20Walk) walk(n *c20Node, v data.Value, path string) string { return w.walkAt(n, v, path, 0) }
+
+// ctx: 0 = where NewWith looks at the dynamic type, 1 = one pointer below, 2 = reached by the drilling loop only
+func (w *c20Walk) walkAt(n *c20Node, v data.Value, path string, ctx int) string {
 	bad := func(want string) string {
 		return fmt.Sprintf("at %s: Go value is %s, Soy value is %T(%s)", path, want, v, c20Show(v))
 	}
@@ -860,6 +989,9 @@ func (w *c20Walk) walk(n *c20Node, v data.Value, path string) string {
 			return bad(fmt.Sprintf("int%d %d", n.width, n.i))
 		}
 	case "uint":
+		if f, isF := v.(data.Float); isF && n.u >= 1<<63 && float64(f) == float64(n.u) {
+			return "" // repaired converter (C20-uint64-float): the nearest Float
+		}
 		x, ok := v.(data.Int)
 		if ok && n.u >= 1<<63 && int64(x) == int64(n.u) {
 			w.bigUint = true // the value is NOT preserved (known finding uint64-wraps), the rest is still walked
@@ -883,7 +1015,7 @@ func (w *c20Walk) walk(n *c20Node, v data.Value, path string) string {
 			return bad(fmt.Sprintf("slice (nil=%v) of %d elements", n.isNil, len(n.elems)))
 		}
 		for i, c := range n.elems {
-			if d := w.walk(c, l[i], fmt.Sprintf("%s[%d]", path, i)); d != "" {
+			if d := w.walkAt(c, l[i], fmt.Sprintf("%s[%d]", path, i), 0); d != "" {
 				return d
 			}
 		}
@@ -897,7 +1029,7 @@ func (w *c20Walk) walk(n *c20Node, v data.Value, path string) string {
 			if !ok {
 				return fmt.Sprintf("at %s: key %q is missing", path, n.keys[i])
 			}
-			if d := w.walk(c, x, fmt.Sprintf("%s[%q]", path, n.keys[i])); d != "" {
+			if d := w.walkAt(c, x, fmt.Sprintf("%s[%q]", path, n.keys[i]), 0); d != "" {
 				return d
 			}
 		}
@@ -930,7 +1062,7 @@ func (w *c20Walk) walk(n *c20Node, v data.Value, path string) string {
 			if !ok {
 				return fmt.Sprintf("at %s: field key %q is missing (%s)", path, k, c20Show(v))
 			}
-			if d := w.walk(c, x, path+"."+k); d != "" {
+			if d := w.walkAt(c, x, path+"."+k, 0); d != "" {
 				return d
 			}
 		}
@@ -941,10 +1073,61 @@ func (w *c20Walk) walk(n *c20Node, v data.Value, path string) string {
 			}
 			return ""
 		}
-		return w.walk(n.elems[0], v, path)
-	case "marshal", "value":
+		nc := 2
+		if ctx == 0 && n.kind == "ptr" {
+			nc = 1
+		} else if ctx == 0 {
+			nc = 0
+		}
+		return w.walkAt(n.elems[0], v, path, nc)
+	case "marshal":
+		if n.ptrRecv && ctx < 2 {
+			ctx++ // the description stands for the pointer *C20MarshalP
+		}
+		if ctx == 2 {
+			// behind two pointers the method set has no MarshalValue: the plain struct
+			return w.walkAt(n.under, v, path, 2)
+		}
 		if !c20Identical(n.val, v) {
 			return bad(n.kind + " " + c20Show(n.val))
+		}
+	case "value":
+		if ctx < 2 {
+			if !c20Identical(n.val, v) {
+				return bad(n.kind + " " + c20Show(n.val))
+			}
+			return ""
+		}
+		// reached by the drilling loop: converted by its underlying type
+		switch x := n.val.(type) {
+		case data.Null, data.Undefined:
+			if m, ok := v.(data.Map); !ok || m == nil || len(m) != 0 {
+				return bad("empty struct (data.Null / data.Undefined behind two pointers)")
+			}
+		case data.List:
+			l, ok := v.(data.List)
+			if !ok || (l == nil) != (x == nil) || len(l) != len(x) {
+				return bad("data.List behind two pointers")
+			}
+			for i := range x {
+				if !c20Identical(x[i], l[i]) {
+					return bad("data.List behind two pointers (element " + strconv.Itoa(i) + ")")
+				}
+			}
+		case data.Map:
+			m, ok := v.(data.Map)
+			if !ok || m == nil || len(m) != len(x) {
+				return bad("data.Map behind two pointers")
+			}
+			for k, xv := range x {
+				if mv, ok := m[k]; !ok || !c20Identical(xv, mv) {
+					return bad("data.Map behind two pointers (key " + k + ")")
+				}
+			}
+		default:
+			if !c20Identical(n.val, v) {
+				return bad(n.kind + " " + c20Show(n.val))
+			}
 		}
 	default:
 		return bad("unsupported kind (a panic was expected)")
@@ -1050,6 +1233,7 @@ func runC20(e *env) {
 		return
 	}
 	c20Fixed(e, g)
+	c20PointerChains(e, g)
 	c20Conversions(e, g)
 	c20Laws(e, g)
 	c20BigMaps(e, g)
@@ -1083,8 +1267,13 @@ func c20CheckConversion(e *env, c *c20Case, resp []string) {
 	irregular := c20Irregular(c.n, 0)
 	expectPanic := c20ExpectPanic(c.n)
 	cj := c.json()
+	if c.panic != "" && c20NilMarshaler(c.n) && strings.Contains(c.panic, "called using nil") {
+		// the model describes the converter after notes/pending/C20-nil-marshaler.diff
+		e.res.Fail(hx.Violation{Kind: "oracle", What: "converting a nil pointer to a value-receiver Marshaler panicked", Case: cj, Observed: c.panic}, "nil-marshaler-panics")
+		return
+	}
 	if irregular {
-		e.res.Histogram["convert:irregular (model OutOfModel, see probes)"]++
+		e.res.Histogram["convert:a pointer to a data.Value is returned as it is (model OutOfModel, see probes)"]++
 		if resp != nil && resp[0] != "outofmodel" && resp[0] != "err" {
 			e.res.Fail(hx.Violation{Kind: "mismatch", What: "harness classifies the input as irregular, the model converts it", Case: cj, Expected: strings.Join(resp, " ")}, "")
 		}
@@ -1101,6 +1290,8 @@ func c20CheckConversion(e *env, c *c20Case, resp []string) {
 			oracleFailed = true
 			e.res.Fail(hx.Violation{Kind: "oracle", What: "the Soy value does not have the structure and scalar values of the Go value: " + d, Case: cj, Observed: c20Show(c.v)}, "")
 		} else if w.bigUint {
+			// the model describes the converter after notes/pending/C20-uint64-float.diff: no correspondence on this input until it is applied
+			oracleFailed = true
 			e.res.Fail(hx.Violation{Kind: "oracle", What: "an unsigned integer >= 2^63 became a negative Int", Case: cj, Observed: c20Show(c.v)}, "uint64-wraps")
 		}
 		v2, p2 := c20Convert(c.lc, c.v)
@@ -1280,6 +1471,86 @@ func c20Fixed(e *env, g *c20Gen) {
 	for i, v := range c20Specials {
 		e.res.Count("fixed-truthy:"+sexps[i], true, "truthy")
 		c20CheckTruthy(e, v, sexps[i], resp[i])
+	}
+}
+
+// c20PointerChains: every kind of pointee behind 0..4 pointers, bare, inside an interface{} slot and behind a pointer to an
+// interface: value- and pointer-receiver Marshalers, each of the eight data.Value types, time, scalars, a struct, and the
+// typed nil pointers.  Go's method sets make the first two levels special (Model/Convert.v cctx); the model covers every depth.
+func c20PointerChains(e *env, g *c20Gen) {
+	wrapPtr := func(c *c20Node) *c20Node {
+		p := reflect.New(c.rv.Type())
+		p.Elem().Set(c.rv)
+		return &c20Node{kind: "ptr", elems: []*c20Node{c}, rv: p}
+	}
+	wrapIface := func(c *c20Node) *c20Node {
+		rv := reflect.New(c20EmptyIface).Elem()
+		if in := c20Input(c); in != nil {
+			rv.Set(reflect.ValueOf(in))
+		}
+		return &c20Node{kind: "iface", elems: []*c20Node{c}, rv: rv}
+	}
+	nilPtr := func(x interface{}, to string) *c20Node {
+		return &c20Node{kind: "ptr", isNil: true, nilTo: to, rv: reflect.ValueOf(x)}
+	}
+	type base struct {
+		name string
+		mk   func() *c20Node
+	}
+	bases := []base{
+		{"marshaler(value receiver)", func() *c20Node { return g.gen(c20MarshalVType, 1) }},
+		{"marshaler(pointer receiver)", func() *c20Node { return g.gen(c20MarshalPType, 1) }},
+		{"marshaler(named int)", func() *c20Node { return g.gen(c20PlainMarshalers[0], 1) }},
+		{"marshaler(named slice)", func() *c20Node { return g.gen(c20PlainMarshalers[4], 1) }},
+		{"slice of marshalers(named int)", func() *c20Node { return g.gen(reflect.SliceOf(c20PlainMarshalers[0]), 1) }},
+		{"slice of marshalers(named string)", func() *c20Node { return g.gen(reflect.SliceOf(c20PlainMarshalers[2]), 1) }},
+		{"time", func() *c20Node { return g.gen(c20TimeType, 1) }},
+		{"int32", func() *c20Node { return g.gen(reflect.TypeOf(int32(0)), 1) }},
+		{"uint64", func() *c20Node { return g.gen(reflect.TypeOf(uint64(0)), 1) }},
+		{"struct", func() *c20Node { return g.gen(reflect.TypeOf(C20Small{}), 1) }},
+		{"nil *int", func() *c20Node { return nilPtr((*int)(nil), "") }},
+		{"nil *Marshaler", func() *c20Node { return nilPtr((*C20MarshalV)(nil), "marshal") }},
+		{"nil *data.Int", func() *c20Node { return nilPtr((*data.Int)(nil), "value") }},
+		{"nil *data.Map", func() *c20Node { return nilPtr((*data.Map)(nil), "value") }},
+	}
+	for _, vt := range c20ValueTypes {
+		vt := vt
+		bases = append(bases, base{"data." + vt.Name(), func() *c20Node { return g.gen(vt, 1) }})
+	}
+	var cases []*c20Case
+	var reqs []string
+	for rep := 0; rep < 2*e.scale; rep++ {
+		for _, b := range bases {
+			for depth := 0; depth <= 4; depth++ {
+				for shape := 0; shape < 3; shape++ { // 0 bare chain, 1 the chain inside an interface{} slot, 2 pointer -> interface -> chain
+					g.ids = newIDTable()
+					node := b.mk()
+					for i := 0; i < depth; i++ {
+						node = wrapPtr(node)
+					}
+					switch shape {
+					case 1:
+						node = wrapIface(node)
+					case 2:
+						node = wrapPtr(wrapIface(node))
+					}
+					sexp := g.sexp(node)
+					keep := g.ids.next - 1
+					in := c20Input(node)
+					lc := rep%2 == 0
+					c := &c20Case{n: node, sexp: sexp, keep: keep, ids: g.ids, lc: lc}
+					c.v, c.panic = c20Convert(lc, in)
+					cases = append(cases, c)
+					reqs = append(reqs, "convert "+hx.B(lc)+" "+sexp)
+					e.res.Count("chain:"+hx.B(lc)+sexp, true, "pointer-chain:"+b.name)
+					e.res.Histogram[fmt.Sprintf("pointer-chain depth %d", depth+[]int{0, 0, 1}[shape])]++
+				}
+			}
+		}
+	}
+	resp := e.m.Batch(reqs)
+	for i, c := range cases {
+		c20CheckConversion(e, c, resp[i])
 	}
 }
 
@@ -1634,8 +1905,17 @@ func (g *c20Gen) fromSexp(n *sexpNode, objs map[int]data.Value) (*c20Node, error
 		p := reflect.New(ch.rv.Type())
 		p.Elem().Set(ch.rv)
 		return &c20Node{kind: "ptr", elems: []*c20Node{ch}, rv: p}, nil
+	case "gnilptrto":
+		if atomAt(1) == "1" {
+			c := mk("ptr", (*C20MarshalV)(nil))
+			c.isNil, c.nilTo = true, "marshal"
+			return c, nil
+		}
+		c := mk("ptr", (*data.Int)(nil))
+		c.isNil, c.nilTo = true, "value"
+		return c, nil
 	case "gmarshal", "gval":
-		if len(n.list) != 2 {
+		if len(n.list) < 2 || len(n.list) > 3 {
 			return nil, bad
 		}
 		v, err := nodeToValue(n.list[1], objs)
@@ -1648,7 +1928,7 @@ func (g *c20Gen) fromSexp(n *sexpNode, objs map[int]data.Value) (*c20Node, error
 			return c, nil
 		}
 		c := mk("marshal", C20MarshalV{V: v})
-		c.val = v
+		c.val, c.under = v, marshalUnder(v, 0, true)
 		return c, nil
 	}
 	return nil, bad
